@@ -53,6 +53,9 @@ pub enum Codec {
     TreeHr = 12,
     /// binary, structs written as maps keyed by field name (CBOR / MessagePack-with-names style), lending
     TreeBinMap = 13,
+    /// binary, owned buffers, and sequence accessors whose `size_hint` announces usize::MAX whatever the document holds
+    TreeBinHint = 14,
+    TreeBinPacked = 15,
 }
 impl Codec {
     pub const MAIN: [Codec; 3] = [Codec::Bytes, Codec::Bare, Codec::Json];
@@ -69,13 +72,15 @@ impl Codec {
     /// the two further front ends of the human-readable form (not in `ALL`: they share `Json`'s text)
     pub const JSON_FRONT_ENDS: [Codec; 2] = [Codec::JsonReader, Codec::JsonValue];
     /// the harness-owned third serde format in its four modes (not in `ALL`)
-    pub const TREE_FORMATS: [Codec; 4] = [Codec::TreeBin, Codec::TreeBinLend, Codec::TreeHr, Codec::TreeBinMap];
+    pub const TREE_FORMATS: [Codec; 6] = [Codec::TreeBin, Codec::TreeBinLend, Codec::TreeHr, Codec::TreeBinMap, Codec::TreeBinHint, Codec::TreeBinPacked];
     pub fn tree_mode(self) -> Option<vtree::Mode> {
         match self {
-            Codec::TreeBin => Some(vtree::Mode { human_readable: false, lend: false, structs_as_maps: false }),
-            Codec::TreeBinLend => Some(vtree::Mode { human_readable: false, lend: true, structs_as_maps: false }),
-            Codec::TreeHr => Some(vtree::Mode { human_readable: true, lend: true, structs_as_maps: true }),
-            Codec::TreeBinMap => Some(vtree::Mode { human_readable: false, lend: true, structs_as_maps: true }),
+            Codec::TreeBin => Some(vtree::Mode { human_readable: false, lend: false, structs_as_maps: false, hint: 0, keys: 0 }),
+            Codec::TreeBinHint => Some(vtree::Mode { human_readable: false, lend: false, structs_as_maps: false, hint: 1, keys: 0 }),
+            Codec::TreeBinLend => Some(vtree::Mode { human_readable: false, lend: true, structs_as_maps: false, hint: 0, keys: 0 }),
+            Codec::TreeHr => Some(vtree::Mode { human_readable: true, lend: true, structs_as_maps: true, hint: 0, keys: 0 }),
+            Codec::TreeBinPacked => Some(vtree::Mode { human_readable: false, lend: false, structs_as_maps: true, hint: 0, keys: 1 }),
+            Codec::TreeBinMap => Some(vtree::Mode { human_readable: false, lend: true, structs_as_maps: true, hint: 2, keys: 0 }),
             _ => None,
         }
     }
@@ -87,6 +92,8 @@ impl Codec {
             11 => Some(Codec::TreeBinLend),
             12 => Some(Codec::TreeHr),
             13 => Some(Codec::TreeBinMap),
+            14 => Some(Codec::TreeBinHint),
+            15 => Some(Codec::TreeBinPacked),
             _ => Codec::ALL.get(b as usize).copied(),
         }
     }
@@ -104,6 +111,8 @@ impl Codec {
             Codec::TreeBinLend => "tree-binary-lending",
             Codec::TreeHr => "tree-human-readable",
             Codec::TreeBinMap => "tree-binary-structs-as-maps",
+            Codec::TreeBinHint => "tree-binary-size-hint-max",
+            Codec::TreeBinPacked => "tree-binary-packed-field-keys",
             Codec::Be => "be",
             Codec::Le => "le",
         }
@@ -301,6 +310,10 @@ pub enum Op {
     EgSealRaw,         // [pk, msk, generator (point of the key group)] -> [c1, c2, message_proof, blinder_proof, challenge]   trait-level BlsElGamal::seal_scalar_with_proof with a caller-supplied generator
     ScShareOverBase,   // [base point (on the curve, NOT subgroup-checked: what the public fields of a ciphertext can hold), skshare] -> [dshare]   SignCryptCiphertext { u: base, .. }.create_decryption_share(share)
     PairingRaw,        // [(sig point, pk point) pairs, unchecked] -> [is_identity(product)(1), product over the first half + product over the second half == product over all (1)]   trait-level Pairing::pairing
+    EncodeInterrupted, // [ty, codec_in, bytes, fail_after(8)] -> [flag(1) = the sink failed]   serialize the value as JSON into a writer that fails after that many bytes (a full disk, a closed socket), and into the harness's own serializer failing after that many calls; the value's honest encodings are then taken again by the caller
+    PokCommitNestedAsRef, // [msg, sig] -> [outer commitment, outer secret, inner commitment, inner secret]   ProofCommitment::generate with a message value whose as_ref() runs another ProofCommitment::generate for the same inputs
+    AggVerifyCallerPanics, // [aggsig, k(8), how(1): 0 iterator / 1 AsRef, (pk, msg)...] -> []  (always Rej)   the caller's own iterator (trait level) or message type (struct level) panics at entry k; the caller catches the unwind and goes on using the thread
+    SplitFaultyRng,    // [sk, t, n, seed32, k(8), fill(1)] -> [share..]   split_with_rng with a caller's generator whose k-th request is answered with a block of `fill` bytes (a transient fault of the entropy source), all others from the seeded stream
     MultiSigVerifyKeys, // [msig, msg, pk...] -> []   trait-level BlsSignaturePop::multi_sig_verify over the list of keys
 }
 
